@@ -95,13 +95,22 @@ def run(ctx):
     _stuffer(ctx, 'TxBitstuffer', 'transmitter', 'self.i_data', None, SB)
     _stuffer(ctx, 'RxBitstuffRemover', 'receiver', 'self.i_data', 'self.i_valid', 'drop_bit')
     od = tb.drivers('self.o_data', exact=True)
-    # next o_data for every valuation of (stuff_bit, i_data): 0 while stuffing, the data bit otherwise -- an If/Else, a Mux
-    # and `i_data & ~stuff_bit` are one table
-    ok = bool(od)
+    # next o_data in every FSM state and for every valuation of what its drivers mention: 0 in the stuffing state (where
+    # o_stall is raised), the data bit in every other state -- an If/Else on a flag, a Mux, `i_data & ~stuff_bit` and
+    # statements written inside the states are one table
+    tfsm = ctx.the_fsm(tb)
+    stall_states = q.flag_states(tb, tfsm, SB)
+    ok = bool(od) and any(v is True for v in stall_states.values()) and all(v in (True, False) for v in stall_states.values())
     try:
-        for asg, val in q.flag_values(tb, 'self.o_data', None, init=None):
-            if SB not in asg or 'self.i_data' not in asg or val is not (asg['self.i_data'] and not asg[SB]):
-                ok = False
+        for st_ in tfsm.states if ok else ():
+            ong = {'ongoing(%s:%s)' % (tfsm.id, s2): (s2 == st_) for s2 in tfsm.states}
+            ong[SB] = stall_states[st_]
+            for asg, val in q.flag_values(tb, 'self.o_data', st_, assume=ong, init=None):
+                want_ = False if stall_states[st_] else asg.get('self.i_data')
+                if 'self.i_data' not in asg and not stall_states[st_]:
+                    ok = False
+                elif val is not want_:
+                    ok = False
     except Exception:
         ok = False
     ctx.ob('C25.stuffed-bit', 'TxBitstuffer.o_data', ok, od[0].loc if od else None,
